@@ -128,6 +128,10 @@ SigInfoKl(t)  == Node(t, <<Leaf(N(27), 1, B(3)), Node(N(28), <<NameOk>>)>>)
 SigInfoOverrun(t) == Node(t, <<Leaf(N(27), 1, B(0)), Bad(Leaf(N(40), 1, B(9)))>>)
 SigInfoUnkCrit(t) == Node(t, <<Leaf(N(27), 1, B(0)), UnkCrit>>)
 SigInfoBadWidth(t) == Node(t, <<Leaf(N(27), 3, <<R(0, 3)>>)>>)
+\* sequences INSIDE a nested container: repeated critical, critical out of order (SignatureType after KeyLocator)
+SigInfoDup(t) == Node(t, <<Leaf(N(27), 1, B(0)), Leaf(N(27), 1, B(1))>>)
+SigInfoOoo(t) == Node(t, <<Node(N(28), <<NameOk>>), Leaf(N(27), 1, B(3))>>)
+SigInfoNcIn(t) == Node(t, <<UnkNonCrit, Leaf(N(27), 1, B(0)), UnkNonCrit, Leaf(N(40), 1, B(1))>>)
 
 \* Letters that may stand anywhere (body) / letters only possible as the last element of the level
 \* (tail: an element that overruns the level, or a cut header, has nothing after it).
@@ -138,7 +142,8 @@ InterestBody ==
     NameEmpty, Leaf(N(33), 0, <<>>), Leaf(N(18), 0, <<>>), Node(N(30), <<NameOk>>), Leaf(N(12), 2, <<R(15, 1), R(160, 1)>>),
     Leaf(N(46), 4, <<R(5, 4)>>),
     NameTwo, Node(N(30), <<UnkCrit>>), Node(N(30), <<NameOk, NameBadComp>>), Leaf(N(34), 1, B(64)), Leaf(N(12), 0, <<>>),
-    SigInfoKl(N(44)), SigInfoUnkCrit(N(44)), Leaf(N(33), 1, B(1))>>
+    SigInfoKl(N(44)), SigInfoUnkCrit(N(44)), Leaf(N(33), 1, B(1)),
+    SigInfoDup(N(44)), SigInfoOoo(N(44)), SigInfoNcIn(N(44)), Node(N(30), <<NameOk, UnkNonCrit, NameTwo>>)>>
 InterestTail == <<Bad(Leaf(N(36), 2, <<R(7, 2)>>)), Trunc, Bad(NameOk), Bad(Leaf(N(12), 2, <<R(1, 2)>>)), Bad(SigInfoOk(N(44)))>>
 
 MetaOk  == Node(N(20), <<Leaf(N(24), 1, B(0)), Leaf(N(25), 2, <<R(3, 1), R(232, 1)>>)>>)
@@ -149,7 +154,9 @@ MetaOoo == Node(N(20), <<Leaf(N(25), 1, B(1)), Leaf(N(24), 1, B(2))>>)
 DataBody ==
   <<NameOk, NameBadComp, MetaOk, MetaBadWidth, MetaOverrun, Leaf(N(21), 3, <<R(65, 3)>>), SigInfoUnkCrit(N(22)), UnkCrit, UnkNonCrit,
     NameEmpty, Leaf(N(21), 0, <<>>), SigInfoOk(N(22)), SigInfoOverrun(N(22)), Leaf(N(23), 4, <<R(5, 4)>>),
-    NameTwo, MetaFbi, MetaOoo, Node(N(20), <<>>), SigInfoKl(N(22)), SigInfoBadWidth(N(22)), Leaf(N(23), 0, <<>>)>>
+    NameTwo, MetaFbi, MetaOoo, Node(N(20), <<>>), SigInfoKl(N(22)), SigInfoBadWidth(N(22)), Leaf(N(23), 0, <<>>),
+    SigInfoDup(N(22)), SigInfoOoo(N(22)), Node(N(20), <<Leaf(N(24), 1, B(0)), Leaf(N(24), 1, B(2))>>),
+    Node(N(20), <<Leaf(N(24), 1, B(0)), UnkCrit>>)>>
 DataTail == <<Bad(Leaf(N(21), 3, <<R(65, 3)>>)), Trunc, Bad(NameOk), Bad(MetaOk), Bad(Leaf(N(23), 4, <<R(5, 4)>>))>>
 
 Validity == Node(N(253), <<Leaf(N(254), 15, <<R(49, 15)>>), Leaf(N(255), 15, <<R(50, 15)>>)>>)
@@ -161,7 +168,9 @@ CertSigValCrit == Node(N(22), <<Leaf(N(27), 1, B(3)), Node(N(253), <<Leaf(N(254)
 CertBody ==
   <<NameOk, NameBadComp, MetaOk, Leaf(N(21), 3, <<R(48, 3)>>), CertSigOk, CertSigValOverrun, CertSigValCrit, UnkCrit, UnkNonCrit,
     MetaBadWidth, CertSigDesc, Leaf(N(23), 4, <<R(5, 4)>>),
-    NameEmpty, MetaOverrun, SigInfoOk(N(22)), SigInfoUnkCrit(N(22)), SigInfoBadWidth(N(22))>>
+    NameEmpty, MetaOverrun, SigInfoOk(N(22)), SigInfoUnkCrit(N(22)), SigInfoBadWidth(N(22)),
+    SigInfoDup(N(22)), SigInfoOoo(N(22)),
+    Node(N(22), <<Leaf(N(27), 1, B(3)), Node(N(253), <<Leaf(N(255), 15, <<R(50, 15)>>), Leaf(N(254), 15, <<R(49, 15)>>)>>)>>)>>
 CertTail == <<Bad(Leaf(N(21), 3, <<R(48, 3)>>)), Trunc, Bad(CertSigOk)>>
 
 NackOk == Node(N(800), <<Leaf(N(801), 1, B(150))>>)
